@@ -63,6 +63,7 @@ class Opts:
         self.backward_ann = False  # main thread carries '## backward ##' annotations (not nested in each other)
         self.force_second_thread = False
         self.first_op_children = False  # the first file entry may enclose other calls
+        self.backward_ann_ranks = None  # None: every rank may carry '## backward ##' annotations; else only these (generation index)
         self.annotation_names = None  # names of user annotations (default: vocab.USER_ANNOTATIONS); may repeat operator names
         self.early_kernels = False  # some activities are stamped 1-2 us before their launch call starts (clock skew): queue length -1
         self.align_ends = False  # some kernels end exactly when the busiest other stream becomes free (equally heavy alternative paths)
@@ -506,6 +507,8 @@ def sim_case(draw, o: Optional[Opts] = None, max_ranks: int = 2, same_steps: boo
             o_r = Opts(**{**o.__dict__, "pad_entries": pick(draw, [130, 140])})
         if corr_base is not None:
             o_r = Opts(**{**o_r.__dict__, "corr_base": corr_base})
+        if o.backward_ann_ranks is not None:
+            o_r = Opts(**{**o_r.__dict__, "backward_ann": o.backward_ann and r in o.backward_ann_ranks})
         if o.rank_vocab:
             ops_r, kern_r = o.rank_vocab[r % len(o.rank_vocab)]
             o_r = Opts(**{**o_r.__dict__, "op_names": ops_r, "kernel_names": kern_r})
